@@ -235,6 +235,21 @@ def Seq.get : Seq → Nat → Option Nat
   | [], _ => none
   | s :: rest, i => if i < s.len then s.get i else Seq.get rest (i - s.len)
 
+/-- all results present (`.map(..unwrap())` / `collect::<Result<_>>()`): `none` as soon as one is missing -/
+def optAll {α : Type} : List (Option α) → Option (List α)
+  | [] => some []
+  | none :: _ => none
+  | some x :: t => (optAll t).map (x :: ·)
+
+/-- stable insertion: before the first element whose key is not smaller -/
+def insertKey {α : Type} (key : α → Nat) (x : α) : List α → List α
+  | [] => [x]
+  | y :: t => if key x ≤ key y then x :: y :: t else y :: insertKey key x t
+
+/-- a stable sort by a `u64` key (`sort_unstable` on distinct-or-plain integers, `sort_by_key` elsewhere): insertion sort
+    from the right, so that equal keys keep their order -/
+def sortKey {α : Type} (key : α → Nat) (l : List α) : List α := l.foldr (insertKey key) []
+
 /-- `Vec::dedup` -/
 def dedupAdj : List Nat → List Nat
   | [] => []
@@ -252,8 +267,7 @@ def segMatches (s : Seg) (ids : List Nat) : Option (List Nat) :=
   match s.bounds with
   | none => if ids = [] then some [] else none
   | some r =>
-    some (dedupAdj ((ids.filterMap (fun id => if inRangeOpt r id then s.position id else none)).mergeSort
-      (fun a b => decide (a ≤ b))))
+    some (dedupAdj (sortKey id (ids.filterMap (fun id => if inRangeOpt r id then s.position id else none))))
 
 /-- rowids.rs `RowIdSequence::delete` for one segment: untouched when nothing matched, else `U64Segment::delete` of the
     matched ids in order of appearance; `none` = panic -/
@@ -262,12 +276,12 @@ def segDeleteIds (s : Seg) (ids : List Nat) : Option Seg :=
   | none => none
   | some [] => some s
   | some offs =>
-    match offs.mapM s.get with
+    match optAll (offs.map s.get) with
     | some vals => some (s.delete vals)
     | none => none
 
 /-- rowids.rs `RowIdSequence::delete` -/
-def Seq.delete (q : Seq) (ids : List Nat) : Option Seq := q.mapM (fun s => segDeleteIds s ids)
+def Seq.delete (q : Seq) (ids : List Nat) : Option Seq := optAll (q.map (fun s => segDeleteIds s ids))
 
 /-- the per-segment part of rowids.rs `RowIdSequence::mask`: split off the positions below `cutoff`, made local -/
 def Seq.maskGo : Seq → List Nat → Nat → Option Seq
@@ -412,7 +426,7 @@ def sliceSel (q : Seq) (off len : Nat) : Sel :=
 
 /-- rowids.rs `select_row_ids`, `ReadBatchParams::Indices` -/
 def selectIndices (q : Seq) (ix : List Nat) : Sel :=
-  match ix.mapM (Seq.get q) with
+  match optAll (ix.map (Seq.get q)) with
   | some l => .ok l
   | none => .err
 
@@ -496,13 +510,13 @@ def prepLoop : List Chunk → List Raw → Option (Nat × Nat × List Chunk) →
 
 /-- index.rs `prep_index_chunks`: stable sort by `u64::MAX - start`, then pop from the back -/
 def prepChunks (chunks : List Chunk) : Option (List Raw) :=
-  match (chunks.mergeSort (fun a b => decide (b.lo ≤ a.lo))).reverse with
+  match (sortKey (fun c => U64MAX - c.lo) chunks).reverse with
   | [] => some []
   | c :: rest => (prepLoop rest [Raw.single c] none).map List.reverse
 
 /-- index.rs `merge_overlapping_chunks` (`sort_by_key` is stable) -/
 def mergeChunks (cs : List Chunk) : Option Chunk :=
-  mkChunk ((cs.flatMap (fun c => c.ids.toList.zip c.addrs.toList)).mergeSort (fun a b => decide (a.1 ≤ b.1)))
+  mkChunk (sortKey Prod.fst (cs.flatMap (fun c => c.ids.toList.zip c.addrs.toList)))
 
 def finalChunks : List Raw → Option (List Chunk)
   | [] => some []
